@@ -489,7 +489,8 @@ def check_view_calls(rep: Report, prog) -> int:
                         f"({text(callee.args)}): {b.reason}",
                         key=f"SIG-view|{cname}.{mname}|super().{n.func.attr}|{bcls}",
                     )
-    rep.floor("super() call sites in views.py", n_sites, 4)
+    n_view_classes = sum(1 for ci in mi.classes.values() if nx_bases_of(ci))
+    rep.floor("edge-view classes in views.py", n_view_classes, 2)
     # per-node calls net.in_links(x) / net.out_links(x) across the package
     wrappers = {c: ci for c, ci in mi.classes.items() if prog.lookup_method(ci.fq, "__call__") is not None}
     sig_by_prop = {}
